@@ -265,6 +265,7 @@ func c19Write(t *fw.T, cs *c19Case) (enc []byte, ok bool) {
 // the reader monitor
 
 type c19Mon struct {
+	keepOrder bool // typed reads use the ByteOrder the reader already has (clones)
 	t        *fw.T
 	cs       *c19Case
 	r        *parse.BinaryReader
@@ -369,7 +370,7 @@ func (m *c19Mon) readItem(it *c19Item, known bool) bool {
 	}
 	what := "Read(" + it.Kind + ")"
 	m.op(what, it.w, int64(it.Alt))
-	if !m.call("set ByteOrder", func() { m.r.ByteOrder = c19Order(it.LE) }) {
+	if !m.keepOrder && !m.call("set ByteOrder", func() { m.r.ByteOrder = c19Order(it.LE) }) {
 		return false
 	}
 	if it.kind == kBytes {
@@ -463,6 +464,20 @@ func (m *c19Mon) readBytesItem(it *c19Item, fits bool, what string) bool {
 			m.pos += n
 			m.cnt["reader.values.exact"]++
 			m.t.Seen("kind.order", fmt.Sprint(it.Kind, it.LE))
+			if alt == 0 && cap(got) > len(got) && m.pos < m.total {
+				// the caller appends to the slice it was given: what the reader delivers next must not change
+				ext := got[: len(got)+1 : len(got)+1]
+				old := ext[len(got)]
+				ext[len(got)] = old ^ 0xFF
+				one := make([]byte, 1)
+				nn := 0
+				fw.Guard(func() { nn, _ = m.r.ReadAt(one, m.pos) })
+				ext[len(got)] = old
+				m.cnt["readbytes.spare_capacity_probed"]++
+				if nn == 1 && one[0] != m.data[m.pos] {
+					return m.fail("a byte appended to the slice returned by ReadBytes(%d) shows up as the next byte the reader delivers (offset %d): the slice has spare capacity inside the reader's data", n, m.pos)
+				}
+			}
 			if n == 0 && m.pos == m.total {
 				m.cnt["reader.zero_len_at_end"]++
 			}
@@ -709,10 +724,22 @@ func (m *c19Mon) excursion(r *rand.Rand, items []c19Item) bool {
 		if !cm.state("Clone (the clone)") {
 			return false
 		}
+		if c != nil && c.ByteOrder != m.r.ByteOrder {
+			return m.fail("Clone() of a reader with ByteOrder %v has ByteOrder %v", m.r.ByteOrder, c.ByteOrder)
+		}
 		if len(items) > 0 {
 			it := &items[r.Intn(len(items))]
-			if it.Off+it.w <= m.total && (!cm.seekTo(r, it.Off) || !cm.readItem(it, true)) {
-				return false
+			if it.Off+it.w <= m.total {
+				// the clone reads with the byte order it inherited: a second clone is taken after the original was set to the item's order
+				m.r.ByteOrder = c19Order(it.LE)
+				var c2 *parse.BinaryReader
+				if !m.call("Clone", func() { c2 = m.r.Clone() }) {
+					return false
+				}
+				cm.r, cm.keepOrder = c2, true
+				if !cm.seekTo(r, it.Off) || !cm.readItem(it, true) {
+					return false
+				}
 			}
 		}
 		m.ops = cm.ops
@@ -1088,7 +1115,8 @@ func c19Bitmap(t *fw.T) {
 	p := fw.Guard(func() {
 		var buf []byte
 		if cs.Cap > 0 {
-			buf = make([]byte, 0, cs.Cap)
+			// a scratch buffer the caller reuses (prev[:0]): the spare capacity holds old bits
+			buf = bytes.Repeat([]byte{0xFF}, cs.Cap)[:0]
 		}
 		w = parse.NewBitmapWriter(buf)
 		for _, b := range bits {
